@@ -13,6 +13,12 @@
 //! Every captured event is validated (model independent): mandatory qlog keys, `from_str(to_string(e)) == e`, raw payload
 //! only with `filter_raw_data`, `group_id` inherited from the trace span.
 //!
+//!   seq-*        FAILING storages built from the repo's own `handy::LegacySeqLogger` (see harness20/src/c20fail.rs): directory
+//!                missing / a regular file / read-only / removed after the first trace / fine (sanity), sink that refuses writes
+//!                or flushes.  Monitors: no panic unwinds out of `QLog::new_trace` / `ExportEvent::emit` into the task that builds
+//!                the connection or emits (`panic:reaches-caller:*`); a panic contained in the logger's own task is reported
+//!                separately (`logger-task-panic:<file>`); the application transcript equals the run without a collector.
+//!
 //! Transcript (Drv/C20.lean `pureModel`):  `workload e2e-<profile> seed=<s> case=<i> => ok` ; `pure e2e-<profile> <cfg> => same|diff`
 use std::{
     sync::{Arc, Mutex},
@@ -29,6 +35,9 @@ use crate::{
     common::{Opts, Rng, Sink},
     sim::{self, PairCfg, Profile},
 };
+
+#[path = "../../harness20/src/c20fail.rs"]
+mod c20fail;
 
 pub const RUNS: &[(&str, fn(&Opts))] = &[("c20_e2e", run)];
 
@@ -87,6 +96,7 @@ fn has_raw_data(v: &serde_json::Value) -> bool {
 }
 
 struct RunOut {
+    aborted: bool,
     with_time: Vec<String>,
     no_time: Vec<String>,
     summary: String,
@@ -98,19 +108,24 @@ struct RunOut {
 }
 
 fn one(seed: u64, id: u64, profile: Profile, mode: Option<Mode>, thorough: bool) -> RunOut {
+    one_with(seed, id, profile, mode, None, thorough)
+}
+
+fn one_with(seed: u64, id: u64, profile: Profile, mode: Option<Mode>, failing: Option<Arc<c20fail::Guarded>>, thorough: bool) -> RunOut {
     let mut rng = Rng::new(seed, id);
     let plans = c02::plan_streams(&mut rng, thorough);
     let events = Arc::new(Mutex::new(vec![]));
     let traces = Arc::new(Mutex::new(vec![]));
-    let cfg = match mode {
-        None => PairCfg::default(),
-        Some(m) => PairCfg::default().with_qlog(Arc::new(Log { mode: m, events: events.clone(), traces: traces.clone() })),
+    let cfg = match (mode, failing) {
+        (_, Some(g)) => PairCfg::default().with_qlog(g),
+        (None, None) => PairCfg::default(),
+        (Some(m), None) => PairCfg::default().with_qlog(Arc::new(Log { mode: m, events: events.clone(), traces: traces.clone() })),
     };
     let adv = Rng::new(seed ^ 0xADD, id);
     let out = sim::run_case(id, Duration::from_secs(120), move || {
         c02::one_case_cfg(profile, adv, plans, Duration::from_secs(10), Duration::from_secs(120), cfg)
     });
-    let mut r = RunOut { with_time: vec![], no_time: vec![], summary: String::new(), events: vec![], traces: vec![], fails: vec![], panics: out.panics.clone(), hang: out.wall_hang };
+    let mut r = RunOut { aborted: out.result.is_none(), with_time: vec![], no_time: vec![], summary: String::new(), events: vec![], traces: vec![], fails: vec![], panics: out.panics.clone(), hang: out.wall_hang };
     if let Some(res) = out.result {
         for ev in &res.evs {
             r.with_time.push(format!("{} {} {} => {}", ev.t_us, ev.ep, ev.op, ev.obs));
@@ -213,6 +228,39 @@ fn run(o: &Opts) {
                 sink.branch(&format!("raw-events-with-payload:{}", r.events.iter().filter(|e| has_raw_data(&serde_json::to_value(e).unwrap())).count().min(1)));
             }
         }
+        // failing storages / sinks of the repo's own sequential logger
+        for g in c20fail::failing_configs(&c20fail::scratch(&format!("e2e-{id}"))) {
+            let cfgname = g.name;
+            sink.pending(&format!("pure {w} {cfgname}"));
+            let before = sim::panics_of(id).len();
+            let r = one_with(o.seed, id, profile.clone(), None, Some(g.clone()), thorough);
+            let new_panics: Vec<String> = r.panics.iter().skip(before).cloned().collect();
+            let caught = g.caught.lock().unwrap_or_else(|e| e.into_inner()).clone();
+            let same = !r.aborted && match level { 2 => r.with_time == base.with_time, 1 => r.no_time == base.no_time, _ => r.summary == base.summary };
+            sink.line(&format!("pure {w} {cfgname}"), if same { "same" } else { "diff" });
+            sink.branch(&format!("failing:{cfgname}:{}", if new_panics.is_empty() { "no-panic" } else if caught.is_empty() { "panic-contained-in-logger-task" } else { "panic-in-caller" }));
+            if !caught.is_empty() {
+                sink.monitor_fail(
+                    &format!("panic:reaches-caller:{}:{}", caught[0], new_panics.first().map(|l| c20fail::site_file(l)).unwrap_or_default()),
+                    &format!("collector {cfgname}: a panic unwound out of QLog::{} into the task that builds the connection / emits events (panics seen by the hook: {:?})", caught[0], new_panics),
+                );
+            } else {
+                for loc in &new_panics {
+                    sink.monitor_fail(
+                        &format!("logger-task-panic:{}", c20fail::site_file(loc)),
+                        &format!("collector {cfgname}: panic at {loc}, contained in a task the logger spawned for itself (the trace is lost, the connection is not affected)"),
+                    );
+                }
+            }
+            if r.aborted {
+                sink.monitor_fail(&format!("panic:case-aborted:{cfgname}"), "the case's main future (client side: connect / application) panicked");
+            }
+            if !same {
+                let d = if r.aborted { "case aborted".to_string() } else { match level { 2 => first_diff(&base.with_time, &r.with_time), 1 => first_diff(&base.no_time, &r.no_time), _ => format!("{} vs {}", base.summary, r.summary) } };
+                sink.monitor_fail(&format!("purity:{w}:{cfgname}"), &format!("application transcript differs from the run without a collector: {d}"));
+            }
+        }
+        let _ = std::fs::remove_dir_all(c20fail::scratch(&format!("e2e-{id}")));
     }
     for (n, c) in &names {
         sink.branch(&format!("event:{n}"));
